@@ -180,7 +180,8 @@ Section Steps.
       + assert (len = 0) by lia. subst len. rewrite H. reflexivity.
     - cbn [andb]. destruct (0 <? Z.of_nat sz)%Z eqn:L.
       + replace (Z.of_nat sz =? Z.of_nat len)%Z with false by (symmetry; apply Z.eqb_neq; lia). reflexivity.
-      + replace (Z.of_nat sz <? 0)%Z with false by (symmetry; apply Z.ltb_ge; lia). reflexivity.
+      + replace (Z.of_nat sz <? 0)%Z with false by (symmetry; apply Z.ltb_ge; lia).
+        change ((1 =? 0)%Z) with false. rewrite ?andb_false_r. reflexivity.
   Qed.
 
   (** [Matrix::reshape(1, -1)]: to a row *)
